@@ -7,6 +7,31 @@ TRUST = [
 ]
 
 PROPS = {
+    "C09": {
+        "level": "exploration",
+        "builds": ["prod"],
+        "shards": {"quick": 4, "thorough": 16},
+        "timeout": {"quick": 300, "thorough": 3000},
+        "rule": "generated structurally valid values of every format (all enum variants, 0/254/255 slips, empty / 1 MiB payloads, 0..8 hops, every integer field drawn from {0,1,2^8,2^16,2^32,2^63,2^64-1} or random) plus the real values of an honest chain (fee, golden-ticket, routed, rebroadcast txs) and one message of every tag; oracle: decode(encode(v)) == v field-wise, encode(decode(b)) == b, predicted size, hash / signature validity / acceptance verdict unchanged across wire and disk. distinct = (format, shape or field vector)",
+        "floors": {"quick": {"evaluations": 10000, "values.slip": 2000, "values.transaction": 2000, "values.block-random": 500, "values.message": 30, "values.block-disk": 5}},
+        "level_text": "exploration with generated values: round-trip, size, hash, signature-validity and verdict oracles evaluated on tens of thousands of generated values per run and on real producer output; right level because the property is a universally quantified equation over values that a generator can sample densely but not enumerate",
+        "level_note": "equality is on consensus fields (cached / derived fields are recomputed); formats that only saito-wasm uses are not exercised",
+        "technique": "runtime monitor: round-trip / identity oracle over generated and real values of every format",
+        "assumptions": TRUST,
+    },
+    "C18": {
+        "level": "exploration",
+        "builds": ["prod"],
+        "shards": {"quick": 4, "thorough": 16},
+        "timeout": {"quick": 300, "thorough": 3000},
+        "exhaustive_possible": True,
+        "rule": "blocks of n payments built by the real producer where bit i of a pattern decides whether tx i touches the light client's key; ALL 2^n patterns for n <= 8 (quick) / 10 (thorough), random patterns up to 64 txs, plus every block of an honest chain against three key lists; oracle: header / id / hash / signature equal, touching txs present in full, placeholder counts cover the omitted positions, merkle root recomputed from the lite block (before and after the wire) equals the header's, hash survives the wire. distinct = (n, realised pattern, key-list size)",
+        "floors": {"quick": {"evaluations": 500, "class.merged-placeholders": 100, "class.unmerged-placeholders": 50, "class.no-placeholder": 5}},
+        "level_text": "exploration, exhaustive over all touch patterns up to the stated n: the merging of adjacent placeholders depends only on the pattern, so enumerating patterns enumerates the behaviours of generate_lite_block",
+        "level_note": "the HTTP route of saito-rust that serves lite blocks is not exercised; the recomputation uses the repository's own MerkleTree::generate as the client algorithm",
+        "technique": "runtime monitor: projection oracle (full vs lite block) over enumerated touch patterns",
+        "assumptions": TRUST,
+    },
     "C10": {
         "level": "fault_enumeration",
         "builds": ["prod", "chk"],
